@@ -131,6 +131,10 @@ impl<const B: Word> Repr<B> {
                 (UBig::ZERO, 0)
             };
             ndigits = int_digits + fract_digits;
+            if ndigits == 0 {
+                // both parts are omitted (e.g. `0x.`)
+                return Err(ParseError::NoDigits);
+            }
 
             if fract.is_zero() {
                 int
